@@ -217,7 +217,9 @@ impl Dictionary for MutableDictionary {
         let normalized = word.normalized();
 
         if let Some(found) = self.word_map.get_with_chars(normalized.as_ref()) {
-            if found.canonical_spelling.as_ref() == normalized.as_ref() {
+            // The stored spelling may itself contain typographic apostrophes (a user word such as
+            // "blorf’s" is stored as typed): compare both sides in normalized form.
+            if found.canonical_spelling.as_slice().normalized().as_ref() == normalized.as_ref() {
                 return true;
             }
         }
